@@ -116,6 +116,62 @@ def compile_accepts(Parser, text):
         return 'raised:' + type(ex).__name__, parser
 
 
+def other_script_ends(chk, stats, simnet, clock_mod, settings_mod, ScriptJob):
+    """a script waits for a time of day that is half a day away while another script runs and
+    ENDS (or is stopped): the wait goes on — a `time at` wait ends at a minute its patterns match
+    and at no other event.  Production clock binding (`clock.configure()`), real threads."""
+    import datetime
+    import time as _time
+    from bardolph.lib import injection, i_lib, job_control
+    net, ls, trace = simnet.install([{'label': 'A', 'kind': 'plain'}, {'label': 'B', 'kind': 'plain'}])
+    clock_mod.configure()
+    settings_mod.Settings._the_config['sleep_time'] = 0.01
+    now = datetime.datetime.now()
+    far = now + datetime.timedelta(hours=11, minutes=17)
+    far2 = now + datetime.timedelta(hours=7, minutes=41)
+    waits = ['time at {}:{:02d} on "A"'.format(far.hour, far.minute),
+             'time at {}:{:02d} or {}:{:02d} on "A"'.format(far.hour, far.minute, far2.hour, far2.minute),
+             'define t {}:{:02d} time at t wait on "A"'.format(far2.hour, far2.minute)]
+    others = [('ends', 'on "B" off "B"'), ('ends-after-delay', 'time 0.05 on "B" off "B"'),
+              ('stopped', 'repeat begin on "B" time 0.02 wait end')]
+    stats['waits_with_another_script'] = 0
+    for wait_text in waits:
+        for how, other in others:
+            jc = job_control.JobControl()
+            net.clear_log()
+            waiting = ScriptJob.from_string(wait_text)
+            jc.spawn_job(waiting, 'waiting')
+            _time.sleep(0.05)
+            jc.add_job(ScriptJob.from_string(other), 'other')
+            _time.sleep(0.15)
+            if how == 'stopped':
+                jc.stop_current()
+            deadline = _time.monotonic() + 3
+            while jc.get_current() is not None and jc.is_running('other') and _time.monotonic() < deadline:
+                _time.sleep(0.01)
+            _time.sleep(0.2)
+            fired = [e for e in net.events if e[0] == 'A']
+            still_waiting = jc.is_running('waiting')
+            jc.stop_background()
+            jc.stop_current()
+            waiting.request_stop()
+            deadline = _time.monotonic() + 3
+            while jc.is_running('waiting') and _time.monotonic() < deadline:
+                _time.sleep(0.01)
+            chk.count()
+            stats['waits_with_another_script'] += 1
+            if fired or not still_waiting:
+                chk.violation('time-at-wait-ended-by-another-script',
+                              '`{}` (half a day away) while another script ({}) {}: the waiting script {}'.format(
+                                  wait_text, other, how,
+                                  'sent {}'.format(fired[:2]) if fired else 'ended'),
+                              {'waiting_script': wait_text, 'other_script': other, 'other': how,
+                               'how': 'harness/c11.py other_script_ends: production clock binding, real threads'})
+            else:
+                chk.nontrivial_case(('other-script', wait_text.split(' on ')[0][:8], how, len(wait_text)))
+    injection.bind(clock_mod.Clock).to(i_lib.Clock)
+
+
 def main():
     chk = Check('C11')
     chk.lean_phase(sections={'TimePattern'})
@@ -500,6 +556,7 @@ def main():
     from bardolph.controller.script_job import ScriptJob
     simnet.install(c10.POP, settings_overrides={'sleep_time': 0.25})
     c10.drift_cases(chk, (clock_mod, settings_mod, TP, ScriptJob), stats)
+    other_script_ends(chk, stats, simnet, clock_mod, settings_mod, ScriptJob)
     chk.coverage['distribution'] = stats
     chk.coverage['rule'] = (
         'all 15851 syntactically well-formed patterns (each against its 24 hour and 60 minute '
